@@ -644,6 +644,7 @@ func (cr *ConRun) runIndex() {
 	cr.stat("steps", int(cr.Res.Steps))
 	cr.stat("decisions", int(cr.Res.Decisions))
 	cr.stat("preemptions", int(cr.Res.Preemptions))
+	cr.faultStats()
 	cr.stat("outcome:"+cr.Res.Outcome, 1)
 	cr.stat("index_kind:"+kind, 1)
 	if drain {
